@@ -487,15 +487,19 @@ func (s *Server) handleRPCReplenishAccounts(stream net.Conn) error {
 
 	var depositSum types.Currency
 	var costResp rhp4.RPCReplenishAccountsResponse
+	// an account listed more than once must not be topped up beyond the
+	// target: later entries see the deposits planned for earlier ones
+	planned := make(map[rhp4.Account]types.Currency)
 	for i, balance := range balances {
 		deposit := rhp4.AccountDeposit{
 			Account: req.Accounts[i],
 		}
 
-		value, underflows := req.Target.SubWithUnderflow(balance)
+		value, underflows := req.Target.SubWithUnderflow(balance.Add(planned[req.Accounts[i]]))
 		if !underflows {
 			deposit.Amount = value
 		}
+		planned[req.Accounts[i]] = planned[req.Accounts[i]].Add(deposit.Amount)
 		depositSum = depositSum.Add(deposit.Amount)
 		costResp.Deposits = append(costResp.Deposits, deposit)
 	}
@@ -559,14 +563,17 @@ func (s *Server) handleRPCReplenishPools(stream net.Conn) error {
 
 	var depositSum types.Currency
 	var costResp rhp4.RPCReplenishAccountsResponse
+	// a pool listed more than once must not be topped up beyond the target
+	planned := make(map[rhp4.Account]types.Currency)
 	for i, balance := range balances {
 		deposit := rhp4.AccountDeposit{
 			Account: req.Accounts[i],
 		}
-		value, underflows := req.Target.SubWithUnderflow(balance)
+		value, underflows := req.Target.SubWithUnderflow(balance.Add(planned[req.Accounts[i]]))
 		if !underflows {
 			deposit.Amount = value
 		}
+		planned[req.Accounts[i]] = planned[req.Accounts[i]].Add(deposit.Amount)
 		depositSum = depositSum.Add(deposit.Amount)
 		costResp.Deposits = append(costResp.Deposits, deposit)
 	}
